@@ -31,6 +31,8 @@ def local_table(func, param, program=None):
     for n in walk_own(func.node):
         if isinstance(n, ast.Compare) and len(n.ops) == 1 and isinstance(n.left, ast.Name) and n.left.id == param:
             if isinstance(n.ops[0], (ast.In, ast.NotIn)):
+                if isinstance(n.comparators[0], ast.Constant):
+                    continue  # `name in "text"` is a substring test, not a table
                 vals = const_strings(program, func, n.comparators[0]) if program is not None else None
                 if vals is None and isinstance(n.comparators[0], (ast.Tuple, ast.List, ast.Set)):
                     vals = {e.value for e in n.comparators[0].elts if isinstance(e, ast.Constant)}
@@ -59,7 +61,15 @@ def run(ctx):
     sa = p.func("SymlinkNodeMixin", "__setattr__")
     ctx.touch(ga)
     ctx.touch(sa)
-    # ---- L1
+    # ---- L1 (a name table written as a bare string is a substring test)
+    for f_ in (ga, sa):
+        for n_ in walk_own(f_.node):
+            if isinstance(n_, ast.Compare) and len(n_.ops) == 1 and isinstance(n_.ops[0], (ast.In, ast.NotIn)) \
+                    and isinstance(n_.comparators[0], ast.Constant) and isinstance(n_.comparators[0].value, str) \
+                    and len(n_.comparators[0].value) > 1 and isinstance(n_.left, ast.Name) and n_.left.id == f_.posparams[1]:
+                ctx.viol("L1", f_, n_, "`%s` tests the attribute name against a plain string (a one-element tuple written without its "
+                         "comma?): every name that is a substring of it takes this branch" % norm(n_),
+                         construct="%s: substring test on the attribute name" % f_.qual)
     namep = sa.posparams[1]
     tabs = local_table(sa, namep, p)
     keep = set().union(*[t for _, t in tabs]) if tabs else set()
